@@ -350,21 +350,31 @@ func calculateReuseIndexFor(r *Rule, oldResTcs []TrafficShapingController) (equa
 // buildResourceTrafficShapingController builds TrafficShapingController slice from rules. the resource of rules must be equals to res.
 func buildResourceTrafficShapingController(res string, resRules []*Rule, oldResTcs []TrafficShapingController) []TrafficShapingController {
 	newTcsOfRes := make([]TrafficShapingController, 0, len(resRules))
-	for _, rule := range resRules {
+	// First match every rule with an equivalent old tc, so that an unchanged rule keeps its tc
+	// even if another rule of the same load could reuse that tc's statistic metric.
+	equalOldTcs := make([]TrafficShapingController, len(resRules))
+	for i, rule := range resRules {
+		if res != rule.Resource {
+			continue
+		}
+		if equalIdx, _ := calculateReuseIndexFor(rule, oldResTcs); equalIdx >= 0 {
+			equalOldTcs[i] = oldResTcs[equalIdx]
+			// remove old tc from old resTcs
+			oldResTcs = append(oldResTcs[:equalIdx], oldResTcs[equalIdx+1:]...)
+		}
+	}
+	for i, rule := range resRules {
 		if res != rule.Resource {
 			logging.Error(errors.Errorf("unmatched resource name, expect: %s, actual: %s", res, rule.Resource), "Unmatched resource name in hotspot.buildResourceTrafficShapingController()", "rule", rule)
 			continue
 		}
 
-		equalIdx, reuseStatIdx := calculateReuseIndexFor(rule, oldResTcs)
 		// there is equivalent rule in old traffic shaping controller slice
-		if equalIdx >= 0 {
-			equalOldTC := oldResTcs[equalIdx]
-			newTcsOfRes = append(newTcsOfRes, equalOldTC)
-			// remove old tc from old resTcs
-			oldResTcs = append(oldResTcs[:equalIdx], oldResTcs[equalIdx+1:]...)
+		if equalOldTcs[i] != nil {
+			newTcsOfRes = append(newTcsOfRes, equalOldTcs[i])
 			continue
 		}
+		_, reuseStatIdx := calculateReuseIndexFor(rule, oldResTcs)
 
 		// generate new traffic shaping controller
 		generator, supported := tcGenFuncMap[rule.ControlBehavior]
